@@ -272,6 +272,11 @@ def _graph_tensors(name, dims, D, key, op=False, idfmt=("k{}", "b{}"), tagfmt="I
     return sites, ts
 
 
+def _custom(tspec):
+    """targets with non-default site / tag naming carry a trailing 'custom'"""
+    return tspec[-1] == "custom"
+
+
 def build(tspec):
     qtn = _qtn()
     tspec = _tt(tspec)
@@ -279,17 +284,20 @@ def build(tspec):
     w = World()
     w.fam = fam
     w.tspec = tspec
+    w.cache = {}  # operator / gate objects re-used by later steps of a history ('reuse' steps)
     if fam in ("mps", "cmps"):
-        _, dims, bond, dtype = tspec
+        _, dims, bond, dtype = tspec[:4]
         L = len(dims)
         arrs = _mps_arrays(dims, _bonds(L, bond), fam == "cmps", dtype, tspec)
-        w.tn = qtn.MatrixProductState(arrs, shape="lrp")
+        names = {"site_ind_id": "q{}", "site_tag_id": "S{}"} if _custom(tspec) else {}
+        w.tn = qtn.MatrixProductState(arrs, shape="lrp", **names)
         w.kind, w.sites, w.dims = "vec", tuple(range(L)), tuple(dims)
     elif fam in ("mpo", "cmpo"):
-        _, dims, bond, dtype = tspec
+        _, dims, bond, dtype = tspec[:4]
         L = len(dims)
         arrs = _mps_arrays(dims, _bonds(L, bond), fam == "cmpo", dtype, tspec, phys2=True)
-        w.tn = qtn.MatrixProductOperator(arrs, shape="lrud")
+        names = {"upper_ind_id": "u{}", "lower_ind_id": "d{}", "site_tag_id": "S{}"} if _custom(tspec) else {}
+        w.tn = qtn.MatrixProductOperator(arrs, shape="lrud", **names)
         w.kind, w.sites, w.dims = "op", tuple(range(L)), tuple(dims)
     elif fam == "peps":
         _, Lx, Ly, D, d = tspec
@@ -316,14 +324,15 @@ def build(tspec):
         w.sites = tuple((i, j) for i in range(Lx) for j in range(Ly))
         w.dims = (d,) * (Lx * Ly)
     elif fam in ("gvec", "gop"):
-        _, name, dims, D = tspec
-        sites, ts = _graph_tensors(name, dims, D, tspec, op=(fam == "gop"))
+        _, name, dims, D = tspec[:4]
+        idfmt, tagfmt = (("q{}", "d{}"), "S{}") if _custom(tspec) else (("k{}", "b{}"), "I{}")
+        sites, ts = _graph_tensors(name, dims, D, tspec[:4], op=(fam == "gop"), idfmt=idfmt, tagfmt=tagfmt)
         tn = qtn.TensorNetwork(ts)
         if fam == "gvec":
-            tn.view_as_(qtn.TensorNetworkGenVector, sites=sites, site_tag_id="I{}", site_ind_id="k{}")
+            tn.view_as_(qtn.TensorNetworkGenVector, sites=sites, site_tag_id=tagfmt, site_ind_id=idfmt[0])
             w.kind = "vec"
         else:
-            tn.view_as_(qtn.TensorNetworkGenOperator, sites=sites, site_tag_id="I{}", upper_ind_id="k{}", lower_ind_id="b{}")
+            tn.view_as_(qtn.TensorNetworkGenOperator, sites=sites, site_tag_id=tagfmt, upper_ind_id=idfmt[0], lower_ind_id=idfmt[1])
             w.kind = "op"
         w.tn, w.sites, w.dims = tn, tuple(sites), tuple(dims)
     elif fam == "dense1d":
@@ -518,7 +527,15 @@ def _where_arg(where, st):
     return where
 
 
-def _compress_kw(mode):
+def _compress_kw(mode, st=None):
+    """default profile: max_bond=None, cutoff=0.0 (exact); 'co' = 'default'
+    passes nothing (quimb's cutoff 1e-10 - nothing of the generic data is that
+    small), 'mb' only a roomy max_bond."""
+    co = (st or {}).get("co")
+    if co == "default":
+        return {}
+    if co == "mb":
+        return {"max_bond": 64}
     return {} if mode in (False, True) else {"max_bond": None, "cutoff": 0.0}
 
 
@@ -559,8 +576,13 @@ def p_gate(w, st):
     G = _op(kindop, dw, (kindop, tuple(dw), st.get("n", 0)))
     Geff = _flagged(G, st.get("f", "n"))
     Garg = _G_form(G, dw, form)
+    if st.get("reuse"):
+        # the same array object for every application (the reference keeps its own copy)
+        G = _op(kindop, dw, (kindop, tuple(dw), "reuse"))
+        Geff = _flagged(G, st.get("f", "n"))
+        Garg = w.cache.setdefault(("G", kindop, tuple(dw), form), _G_form(G.copy(), dw, form))
     kw = dict(contract=mode)
-    kw.update(_compress_kw(mode))
+    kw.update(_compress_kw(mode, st))
     kw.update(_flag_kw(st.get("f", "n")))
     if "pt" in st:
         kw["propagate_tags"] = st["pt"]
@@ -610,6 +632,10 @@ def p_gate(w, st):
             mode_eff = eff
             if eff == "nonlocal" and st.get("f", "n") in ("d", "b"):
                 p.root = "1d-dispatch-nonlocal-dagger"
+            if eff == "nonlocal" and tn.site_tag_id != "I{}" and not p.skip:
+                p.root = "custom-site-tag-id"
+            if eff == "swap+split" and k == 2 and st.get("f", "n") != "n" and st.get("co") and abs(where[0] - where[1]) != 1:
+                p.root = "swap-flags-reach-the-swaps"
         else:
             mode_eff = mode
             p.reject = _predict_gate_inds(tn, inds, mode)
@@ -620,8 +646,8 @@ def p_gate(w, st):
     wa = _where_arg(where, st)
     p.call = lambda: fn(Garg, wa, **kw)
     p.newref = _vec_apply(w, Geff, where, which or "site")
-    if mode in ("nonlocal", "auto-mps"):
-        p.tol = RTOL
+    if st.get("co"):
+        p.tol = 1e-8  # default cutoff 1e-10
     return p
 
 
@@ -713,8 +739,13 @@ def p_auto_swap(w, st):
     if not _chain_like(w):
         p.skip = "needs-chain"
         return p
-    kw = {"cutoff": 0.0, "max_bond": None, "swap_back": bool(st.get("sb", True))}
+    kw = {"swap_back": bool(st.get("sb", True))}
+    kw.update(_compress_kw("swap+split", st))
     kw.update(_flag_kw(st.get("f", "n")))
+    if st.get("co"):
+        p.tol = 1e-8
+        if st.get("f", "n") != "n" and abs(where[0] - where[1]) != 1:
+            p.root = "swap-flags-reach-the-swaps"
     p.gated = where
     fn = tn.gate_with_auto_swap_ if st.get("inp") else tn.gate_with_auto_swap
     p.call = lambda: fn(_G_form(G, dw, st.get("op", ("generic", "mat"))[1]), where, **kw)
@@ -756,7 +787,7 @@ def p_swap(w, st):
     return p
 
 
-def _sub_mpo(w, where, G, key, upper_ind_id="k{}", lower_ind_id="b{}"):
+def _sub_mpo(w, where, G, key, upper_ind_id="k{}", lower_ind_id="b{}", site_tag_id="I{}"):
     """Exact MPO for the operator G on the sites ``where`` (factors of G in the
     order of ``where``), built by hand on the SORTED sites: the first tensor
     carries the whole operator, the bond is the fused (out, in) pair of the
@@ -789,7 +820,7 @@ def _sub_mpo(w, where, G, key, upper_ind_id="k{}", lower_ind_id="b{}"):
                 arrays.append(eye.transpose(0, 3, 1, 2))  # 'lrud'
             else:
                 arrays.append(eye.reshape(dl, d, d))  # 'lud'
-    return qtn.MatrixProductOperator(arrays, sites=srt, L=L, shape="lrud", upper_ind_id=upper_ind_id, lower_ind_id=lower_ind_id)
+    return qtn.MatrixProductOperator(arrays, sites=srt, L=L, shape="lrud", upper_ind_id=upper_ind_id, lower_ind_id=lower_ind_id, site_tag_id=site_tag_id)
 
 
 def p_nonlocal(w, st):
@@ -798,11 +829,13 @@ def p_nonlocal(w, st):
     tn = w.tn
     where = _tt(st["w"])
     dw = [w.dims[i] for i in _idx(w, where)]
-    G = _op("generic", dw, ("nl", tuple(dw)))
-    if not _chain_like(w):
+    G = _op("generic", dw, ("nl", tuple(dw), st.get("n", 0)))
+    method = st["m"]
+    if method != "lazy" and not _chain_like(w):
         p.skip = "needs-chain"
         return p
-    method = st["m"]
+    if method != "lazy" and tn.site_tag_id != "I{}":
+        p.root = "custom-site-tag-id"
     kw = {"method": method}
     if method != "lazy":
         kw.update(cutoff=0.0, max_bond=(64 if method in ("zipup-first", "zipup-oversample") else None))
@@ -829,36 +862,38 @@ def p_submpo(w, st):
     qtn = _qtn()
     tn = w.tn
     where = _tt(st["w"])
-    if not _chain_like(w):
+    method = st["m"]
+    reuse = bool(st.get("reuse"))
+    if st["e"] == "gate_with_mpo":
+        # compresses the whole stack site by site: every tensor needs exactly one site tag
+        ok = all(sum(1 for x in t.tags if x in set(tn.site_tags)) == 1 for t in tn) and all(len(_holder(tn, tn.site_ind(s_))) == 1 for s_ in w.sites)
+        if not (_chain_like(w) or (reuse and ok)):
+            p.skip = "needs-chain"
+            return p
+    elif method != "lazy" and not _chain_like(w):
+        # lazy application only rewires the physical labels; everything else canonicalises the chain first
         p.skip = "needs-chain"
         return p
-    method = st["m"]
     f = st.get("f", "n")
     kw = {"method": method}
     if method != "lazy":
         kw.update(cutoff=0.0, max_bond=None)
     if f == "t":
         kw["transpose"] = True
+    if st.get("ipo"):
+        assert not reuse
+        kw["inplace_mpo"] = True
     L = len(w.sites)
     if st["e"] == "gate_with_mpo":
-        arrs = _mps_arrays(w.dims, _bonds(L, 2), False, "complex128", ("mpoA", w.dims), phys2=True)
-        A = qtn.MatrixProductOperator(arrs, shape="lrud")
-        asites = tuple(range(L))
+        A, asites, Amat = _op_network(w, "all", ("mpoA", st.get("n", 0)), reuse=reuse)
         fn = tn.gate_with_mpo_ if st.get("inp") else tn.gate_with_mpo
         p.call = lambda: fn(A, **kw)
     else:
-        dw = [w.dims[i] for i in where]
-        G = _op("generic", dw, ("sm", tuple(dw)))
-        A = _sub_mpo(w, where, G, None)
-        asites = tuple(sorted(where))
+        A, asites, Amat = _op_network(w, where, ("sm", st.get("n", 0)), reuse=reuse)
         if st.get("wgiven"):
             kw["where"] = asites
         fn = tn.gate_with_submpo_ if st.get("inp") else tn.gate_with_submpo
         p.call = lambda: fn(A, **kw)
-    labs = tuple(A.upper_ind(s) for s in asites) + tuple(A.lower_ind(s) for s in asites)
-    Amat = _dense(A, labs)
-    D = int(np.prod([w.dims[s] for s in asites]))
-    Amat = Amat.reshape(D, D)
     p.gated = asites
     p.lazy = method == "lazy"
     p.check_tags = method != "lazy"
@@ -869,27 +904,35 @@ def p_submpo(w, st):
     return p
 
 
-def _op_network(w, asites_spec, key):
+def _op_network(w, asites_spec, key, reuse=False):
     """Operator network A with the geometry of the target, on all sites or (1D
-    only) on a subset.  -> (A, sites of A, dense matrix of A)."""
+    only) on a subset.  -> (A, sites of A, dense matrix of A).  With ``reuse``
+    the SAME object is handed out again to later steps of the history (the
+    docs allow that as long as inplace_op / inplace_mpo are not set)."""
+    if reuse:
+        ck = ("A", asites_spec)
+        if ck not in w.cache:
+            w.cache[ck] = _op_network(w, asites_spec, "reuse")
+        return w.cache[ck]
     qtn = _qtn()
     fam = w.fam
     L = len(w.sites)
+    stag = w.tn.site_tag_id
     if fam in ("mps", "cmps", "mpo", "cmpo", "dense1d"):
         if asites_spec == "all":
             arrs = _mps_arrays(w.dims, _bonds(L, 2), False, "complex128", ("opA", w.dims, key), phys2=True)
-            A = qtn.MatrixProductOperator(arrs, shape="lrud")
+            A = qtn.MatrixProductOperator(arrs, shape="lrud", site_tag_id=stag)
             asites = tuple(range(L))
         else:
             asites = tuple(sorted(asites_spec))
             dw = [w.dims[s] for s in asites_spec]
             G = _op("generic", dw, ("opA", tuple(dw), key))
-            A = _sub_mpo(w, asites_spec, G, None)
+            A = _sub_mpo(w, asites_spec, G, None, site_tag_id=stag)
     elif fam in ("gvec", "gop"):
-        _, name, dims, D = w.tspec
-        sites, ts = _graph_tensors(name, dims, 2, ("opA", name, dims, "A"), op=True)
+        _, name, dims, D = w.tspec[:4]
+        sites, ts = _graph_tensors(name, dims, 2, ("opA", name, dims, "A"), op=True, tagfmt=stag)
         A = qtn.TensorNetwork(ts)
-        A.view_as_(qtn.TensorNetworkGenOperator, sites=sites, site_tag_id="I{}", upper_ind_id="k{}", lower_ind_id="b{}")
+        A.view_as_(qtn.TensorNetworkGenOperator, sites=sites, site_tag_id=stag, upper_ind_id="k{}", lower_ind_id="b{}")
         asites = tuple(sites)
     elif fam in ("peps", "pepo"):
         _, Lx, Ly, D, d = w.tspec
@@ -916,7 +959,7 @@ def p_op_lazy(w, st):
     tn = w.tn
     spec = st.get("a", "all")
     spec = spec if spec == "all" else _tt(spec)
-    A, asites, Amat = _op_network(w, spec, st.get("n", 0))
+    A, asites, Amat = _op_network(w, spec, st.get("n", 0), reuse=bool(st.get("reuse")))
     f = st.get("f", "n")
     p.gated = asites
     p.lazy = True
@@ -925,6 +968,9 @@ def p_op_lazy(w, st):
     if w.kind == "vec":
         fn = getattr(tn, "gate_with_op_lazy" + sfx)
         kw = {"transpose": True} if f == "t" else {}
+        if st.get("ipo"):  # documented: the operator may then not be used afterwards -> never with reuse
+            assert not st.get("reuse")
+            kw["inplace_op"] = True
         p.call = lambda: fn(A, **kw)
         p.newref = _vec_apply(w, _flagged(Amat, f), asites)
     else:
@@ -1120,7 +1166,7 @@ def p_inds_with_tn(w, st):
     for l in where:
         dw.append(w.dims[w.sites.index(l)] if l in w.sites else 2)
     k = len(where)
-    G = _op("generic", dw, ("wtn", tuple(dw)))
+    G = _op("generic", dw, ("wtn", tuple(dw), "reuse" if st.get("reuse") else st.get("n", 0)))
     Gt = G.reshape(dw + dw)
     inner = tuple("r%d" % i for i in range(k)) if st.get("names") == "lr" else tuple("gi%d" % i for i in range(k))
     outer = tuple("l%d" % i for i in range(k)) if st.get("names") == "lr" else tuple("go%d" % i for i in range(k))
@@ -1135,6 +1181,9 @@ def p_inds_with_tn(w, st):
         gate = qtn.TensorNetwork([T])
     else:
         gate = T
+    if st.get("reuse"):
+        # the same gate object (same inner bond label) for every application
+        gate = w.cache.setdefault(("gate-tn", tuple(dw), form, st.get("names")), gate)
     p.check_tags = False
     p.check_struct = True
     fn = tn.gate_inds_with_tn_ if st.get("inp") else tn.gate_inds_with_tn
@@ -1450,6 +1499,10 @@ def _targets(tier):
     T["dense1d"] = [("dense1d", (2, 2, 2))]
     T["raw"] = [("raw", ("a", "b", "c", "d"), (2, 3, 2, 2)), ("raw", ("p", "q", "s", "t"), (2, 3, 2, 2)), ("raw", ("l1", "r0", "l0", "r1"), (2, 2, 3, 2))]
     T["tensor"] = [("tensor", ("a", "b", "c"), (2, 3, 2))]
+    # non-default site / tag naming (appended: the index based selections above stay as they are)
+    T["mps"] += [("mps", (2, 3, 2), (2, 3), C, "custom")]
+    T["mpo"] += [("mpo", (2, 2, 2), 2, C, "custom")]
+    T["gvec"] += [("gvec", "tree", (2, 2, 3, 2), 2, "custom")]
     if not q:
         T["mps"] += [("mps", (3, 2, 2, 3, 2), (2, 3), C), ("mps", (3, 3, 3), 2, C)]
         T["cmps"] += [("cmps", (2, 2, 2, 2, 2), 2, C)]
@@ -1589,6 +1642,12 @@ def _cells_1d(tier):
                 for m in ("swap_sites", "swap_to"):
                     for inp in (False, True):
                         cells.append({"t": t, "steps": ({"e": "swap", "w": where, "m": m, "inp": inp},)})
+                # compress options other than the exact profile: quimb's defaults / only a roomy max_bond
+                for co in ("default", "mb"):
+                    for f in ("n", "t", "d"):
+                        cells.append({"t": t, "steps": ({"e": "gate_with_auto_swap", "w": where, "f": f, "co": co},)})
+                        for m in ("swap+split", "auto-mps", "split", "reduce-split") + (("nonlocal",) if fam == "mps" else ()):
+                            cells.append({"t": t, "steps": ({"e": "gate", "w": where, "m": m, "f": f, "co": co},)})
             if fam == "cmps":
                 continue  # 1D compression is documented as open boundary only
             for where in _wheres(t, 3, tier, k3="all"):
@@ -1601,6 +1660,7 @@ def _cells_1d(tier):
                     for f in ("n", "t"):
                         for wg in (False, True):
                             cells.append({"t": t, "steps": ({"e": "gate_with_submpo", "w": where, "m": m, "f": f, "wgiven": wg},)})
+                        cells.append({"t": t, "steps": ({"e": "gate_with_submpo", "w": where, "m": m, "f": f, "ipo": True},)})
             for m in NONLOCAL_METHODS[:3]:
                 for f in ("n", "t"):
                     for inp in (False, True):
@@ -1621,6 +1681,7 @@ def _cells_lazyop(tier):
                 for f in ("n", "t"):
                     for inp in (False, True):
                         cells.append({"t": t, "steps": ({"e": "op_lazy", "a": a, "f": f, "inp": inp},)})
+                    cells.append({"t": t, "steps": ({"e": "op_lazy", "a": a, "f": f, "ipo": True},)})
     for fam in ("mpo", "gop"):
         for t in T[fam]:
             specs = ["all"]
@@ -1821,6 +1882,80 @@ def _hist_pairs(t, firsts, menu):
     return cells
 
 
+def _reuse_menu(t):
+    """steps that hand the SAME operator / gate-network / array object to
+    quimb every time they occur in a history"""
+    fam = t[0]
+    sites = _sites_of(t)
+    menu = []
+    if fam in ("mps", "cmps"):
+        subs = [(0, 1), (0, 2), (2, 0)]
+        for f in ("n", "t"):
+            menu.append({"e": "op_lazy", "a": "all", "f": f, "reuse": True})
+        menu.append({"e": "op_lazy", "a": "all", "inp": True, "reuse": True})
+        for a in subs:
+            menu.append({"e": "op_lazy", "a": a, "reuse": True})
+            menu.append({"e": "gate_with_submpo", "w": a, "m": "lazy", "reuse": True})
+        menu.append({"e": "gate_with_submpo", "w": (0, 2), "m": "lazy", "f": "t", "inp": True, "reuse": True})
+        if fam == "mps":
+            menu.append({"e": "gate_with_mpo", "w": (), "m": "direct", "reuse": True})
+            menu.append({"e": "gate_with_submpo", "w": (0, 2), "m": "direct", "reuse": True})
+        for m in (False, "split-gate", True):
+            menu.append({"e": "gate", "w": (0, 1), "m": m, "reuse": True})
+        menu.append({"e": "gate", "w": (1, 0), "m": False, "f": "d", "reuse": True})
+        menu.append({"e": "gate_nonlocal", "w": (0, 2), "m": "lazy"})
+    elif fam in ("peps", "gvec"):
+        for f in ("n", "t"):
+            menu.append({"e": "op_lazy", "a": "all", "f": f, "reuse": True})
+        menu.append({"e": "op_lazy", "a": "all", "inp": True, "reuse": True})
+        for m in (False, "split-gate", True):
+            menu.append({"e": "gate", "w": (sites[0], sites[1]), "m": m, "reuse": True})
+        menu.append({"e": "gate", "w": (sites[1], sites[0]), "m": False, "f": "d", "reuse": True})
+    elif fam in ("mpo", "gop"):
+        for side in ("upper", "lower", "sandwich"):
+            menu.append({"e": "op_lazy", "a": "all", "m": side, "reuse": True})
+        menu.append({"e": "op_lazy", "a": "all", "m": "upper", "f": "t", "reuse": True})
+        menu.append({"e": "op_lazy", "a": "all", "m": "lower", "f": "t", "inp": True, "reuse": True})
+        menu.append({"e": "op_lazy", "a": "all", "m": "sandwich", "f": "d", "reuse": True})
+        if fam == "mpo":
+            for side in ("upper", "lower", "sandwich"):
+                menu.append({"e": "op_lazy", "a": (0, 2), "m": side, "reuse": True})
+        for wh in (None, "upper", "lower"):
+            st = {"e": "gate", "w": (sites[0], sites[1]), "m": False, "reuse": True}
+            if wh:
+                st["which"] = wh
+            menu.append(st)
+        menu.append({"e": "gate", "w": (sites[0], sites[1]), "m": "split-gate", "reuse": True})
+    elif fam == "raw":
+        lab = sites
+        for form in ("tensor", "tn", "split"):
+            for wh in ((lab[0], lab[1]), (lab[2], lab[0])):
+                menu.append({"e": "gate_inds_with_tn", "w": wh, "m": form, "reuse": True})
+        menu.append({"e": "gate_inds_with_tn", "w": (lab[0], lab[1]), "m": "split", "names": "lr", "inp": True, "reuse": True})
+        for m in (False, "split-gate", "swap-split-gate", True):
+            menu.append({"e": "gate_inds", "w": (lab[0], lab[2]), "m": m})
+    return menu
+
+
+def _cells_reuse(tier):
+    """K: histories of depth 2 (all targets) and 3 (quick: the first MPS and
+    MPO; thorough: all) over the re-use menu: the second and third step get the
+    very same operator object as the first, nothing contracted in between."""
+    T = _targets(tier)
+    ts = [T["mps"][0], T["mps"][1], T["cmps"][0], T["peps"][0], T["gvec"][0], T["mpo"][0], T["gop"][0], T["raw"][1], T["raw"][0], T["mps"][5]]
+    cells = []
+    for n, t in enumerate(ts):
+        menu = _reuse_menu(t)
+        for a in menu:
+            cells.append({"t": t, "steps": (dict(a),)})
+            for b in menu:
+                cells.append({"t": t, "steps": (dict(a), dict(b))})
+                if tier != "quick" or t in (T["mps"][0], T["mpo"][0]):
+                    for c in menu:
+                        cells.append({"t": t, "steps": (dict(a), dict(b), dict(c))})
+    return cells
+
+
 HIST3_MODES = (False, True, "split", "split-gate", "swap+split", "nonlocal")
 
 
@@ -1844,6 +1979,7 @@ TABLES = [
     ("operator", _cells_operator),
     ("simple", _cells_simple),
     ("raw", _cells_raw),
+    ("reuse", _cells_reuse),
     ("hist", _cells_hist),
     ("hist3", _cells_hist3),
 ]
